@@ -38,9 +38,9 @@ func (s parseOnlySwarm) Tell(context.Context, p2p.Addr, p2p.IOVec) error { retur
 func (s parseOnlySwarm) Receive(context.Context, func(p2p.Message[p2p.Addr])) error {
 	return p2p.ErrClosed
 }
-func (s parseOnlySwarm) LocalAddrs() []p2p.Addr                  { return nil }
-func (s parseOnlySwarm) MTU() int                                { return 0 }
-func (s parseOnlySwarm) Close() error                            { return nil }
+func (s parseOnlySwarm) LocalAddrs() []p2p.Addr               { return nil }
+func (s parseOnlySwarm) MTU() int                             { return 0 }
+func (s parseOnlySwarm) Close() error                         { return nil }
 func (s parseOnlySwarm) ParseAddr(x []byte) (p2p.Addr, error) { return s.parse(x) }
 
 func genIP(t *rapid.T) netip.Addr {
